@@ -42,6 +42,7 @@ inductive Ex where
   | uniq (a : Ex)                          -- `_utils.uniq(a)`
   | reSearch (p s : Ex)                    -- `re.search(p, s)` (as a truth value)
   | ensureList (a : Ex)                    -- `_utils.ensure_list(a)`
+  | sliceFrom (a n : Ex)                   -- `a[n:]`
   | all_ (x : String) (it : Ex) (body : Ex)   -- `all(body for x in it)`
   | any_ (x : String) (it : Ex) (body : Ex)   -- `any(body for x in it)`
 deriving Repr, Inhabited
@@ -60,6 +61,7 @@ inductive Iter where
   | items (x : Ex)                 -- `for a, b in x.items()`  (also `iteritems(x)`)
   | enumerate (x : Ex)             -- `for a, b in enumerate(x)`
   | zipEnum (x y : Ex)             -- `for (a, b), c in zip(enumerate(x), y)`
+  | enumerateFrom (x start : Ex)   -- `for a, b in enumerate(x, start=start)`
 deriving Repr, Inhabited
 
 /-- loop targets -/
@@ -78,6 +80,10 @@ inductive St where
   | descend (inst schema : Ex) (path schemaPath : Option Ex)
       -- `for error in validator.descend(inst, schema, path=…, schema_path=…): yield error`
   | yieldErr (fmt : String) (args : List Ex)              -- `yield ValidationError(fmt % (args…))`
+  | yieldMsg (helper : String) (fmt : String) (args : List Ex)
+      -- a message built by a helper of `_utils`: `yield ValidationError(fmt % extras_msg(x))` (helper
+      -- "extras_msg", one argument) or `yield ValidationError(types_msg(instance, types))` (helper
+      -- "types_msg", no format)
 deriving Repr, Inhabited
 
 /-- a translated keyword function; `unsupported` records why the translator gave up -/
